@@ -186,7 +186,7 @@ package grpcgcp
 //@   ensures [C07.refresh-fail] $newFail != old($newFail) ==> !ref.refreshing && (forall sc balancer.SubConn :: (sc in gb.refreshingScRefs) == old(sc in gb.refreshingScRefs))
 //@ func (gb *gcpBalancer) getReadySubConnRef
 //@   ensures [C01.lookup-unbound] !old(boundKey in gb.affinityMap) ==> $ret0 == nil && !$ret1 && fbUnchanged(gb)
-//@   ensures [C01.lookup-ready] old(homeReady(gb, boundKey)) ==> $ret1 && $ret0 == old(gb.scRefs[gb.affinityMap[boundKey]]) && $ret0 != nil && fbUnchanged(gb)
+//@   ensures [C01,C08 lookup-ready] old(homeReady(gb, boundKey)) ==> $ret1 && $ret0 == old(gb.scRefs[gb.affinityMap[boundKey]]) && $ret0 != nil && fbUnchanged(gb)
 //@   ensures [C01.lookup-wait] old(boundKey in gb.affinityMap) && !old(homeReady(gb, boundKey)) && !fallbackOn(gb) ==> $ret1 && $ret0 == nil && fbUnchanged(gb)
 //@   ensures [C08.sticky] old(boundKey in gb.affinityMap) && !old(homeReady(gb, boundKey)) && fallbackOn(gb) && old(boundKey in gb.fallbackMap) ==> $ret1 && $ret0 == old(gb.scRefs[gb.fallbackMap[boundKey]]) && $ret0 != nil && fbUnchanged(gb)
 //@   ensures [C08.standin] old(boundKey in gb.affinityMap) && !old(homeReady(gb, boundKey)) && fallbackOn(gb) && !old(boundKey in gb.fallbackMap) && (exists sc, st in gb.scStates :: st == connectivity.Ready) ==> $ret1 && $ret0 != nil && $ret0.subConn in gb.scRefs && gb.scRefs[$ret0.subConn] == $ret0 && gb.scStates[$ret0.subConn] == connectivity.Ready && boundKey in gb.fallbackMap && gb.fallbackMap[boundKey] == $ret0.subConn
